@@ -120,7 +120,7 @@ def licensed (c : HClass) (r : Rule) : Bool :=
   | .bilinear => r == .multiply
   | .ratio => r == .divide
   -- convert the divisor to the dividend's unit, return a pure number
-  | .floorRatio => r == .comparison || r == .arctan2
+  | .floorRatio => r == .comparison || r == .arctan2 || r == .floorDivide
   | .divmod => false
   | .power => r == .power
   | .degree q => ruleDegree r == some q
@@ -134,10 +134,10 @@ def licensed (c : HClass) (r : Rule) : Bool :=
 
 /-- ufuncs whose regenerated rule is *not* the one their class licenses: each is a recorded
     finding (`known_findings.d/C04.json`) with a counterexample theorem in `UnytProofs/C04.lean` -/
-def exclC04 : List String := ["floor_divide", "divmod", "heaviside"]
+def exclC04 : List String := ["divmod", "heaviside"]
 
 /-- the tuples `__array_ufunc__` branches on, as the documented behaviour requires them -/
-def convRulesRef : List Rule := [.preserve, .comparison, .arctan2, .difference]
+def convRulesRef : List Rule := [.preserve, .comparison, .arctan2, .difference, .floorDivide]
 def postMulRulesRef : List Rule := [.multiply, .divide]
 
 /-- `reduce` of a product of `n` equal-unit numbers has the unit to the power `n`; of a
@@ -145,7 +145,14 @@ def postMulRulesRef : List Rule := [.multiply, .divide]
 def powerMapRef : List (String × (Int → Int)) := [("multiply", fun n => n), ("divide", fun n => 2 - n)]
 
 /-- how many numbers `ufunc.reduce(x, axis=…)` combines into each result: NumPy reduces along
-    the given axis, and along axis 0 when none is given (`axis=None` must be asked for) -/
-def reduceCountRef (shape : List Nat) (axisKw : Option Nat) : Nat := shape.getD (axisKw.getD 0) 1
+    the given axis, along axis 0 when none is given, and over the whole array for `axis=None` -/
+def reduceCountRef (shape : List Nat) (axisKw : AxisKw) : Nat :=
+  match axisKw with
+  | .absent => shape.getD 0 1
+  | .idx a => shape.getD a 1
+  | .none => shape.foldl (· * ·) 1
+
+/-- the one rule swap the dispatcher makes: floor-division without a common unit is a quotient -/
+def ruleSwapsRef : List (Rule × Rule) := [(.floorDivide, .divide)]
 
 end Unyt.Ref.C04
